@@ -47,7 +47,22 @@ type Env struct {
 // NewEnv creates <workdir>/<label>/sandbox-…/root with a long random-looking
 // name so that substring scans for the root path have no false positives.
 func NewEnv(c *fw.Ctx, mon Monitors, label string) (*Env, error) {
-	base := filepath.Join(c.WorkDir, label)
+	return NewEnvAt(c, mon, filepath.Join(c.WorkDir, label))
+}
+
+// NewDiskEnv is NewEnv on the disk-backed temporary directory instead of the
+// worker's tmpfs scratch space, so that both kinds of file system are seen.
+// The directory is removed by Close.
+func NewDiskEnv(c *fw.Ctx, mon Monitors, label string) (*Env, error) {
+	base, err := ioutil.TempDir("", "verif-"+c.Prop+"-"+label+"-")
+	if err != nil {
+		return nil, err
+	}
+	return NewEnvAt(c, mon, base)
+}
+
+// NewEnvAt creates the sandbox below base.
+func NewEnvAt(c *fw.Ctx, mon Monitors, base string) (*Env, error) {
 	root := filepath.Join(base, fmt.Sprintf("sandbox-%d-%d-q7x9z", c.Seed, c.Shard), "served-root-k3j5h7")
 	if err := os.MkdirAll(root, 0755); err != nil {
 		return nil, err
